@@ -173,6 +173,12 @@ def corpus(ctx):
     pred[0, 9] = 2
     for dm, t in (("IOU", (1, 2)), ("DSC", (1, 2)), ("IOU", (1, 9))):
         pipeline_case(ctx, pred, ref, E.mk_cfg("MATCHED", ["IOU", "DSC"], decision=[dm, {"q": list(t)}]), "corpus.decision-fails")
+    # matched input evaluated by an evaluator that also carries a matcher (never run for matched input) on the decision metric: the
+    # decision threshold still decides
+    for mt in (E.naive("IOU", (1, 2)), E.naive("IOU", (3, 4)), E.merge("IOU", (1, 2)), E.naive("DSC", (1, 2))):
+        for dm, t in (("IOU", (1, 2)), ("DSC", (2, 3))):
+            ctx.count("matched_input_with_an_unused_matcher")
+            pipeline_case(ctx, pred, ref, E.mk_cfg("MATCHED", ["IOU", "DSC"], matcher=mt, decision=[dm, {"q": list(t)}]), "corpus.decision-with-unused-matcher")
     # a decision threshold of exactly zero, configured on the evaluator: IoU / Dice accept every matched pair, ASSD only perfect ones
     r0 = np.zeros((1, 30), np.uint8)
     p0 = np.zeros((1, 30), np.uint8)
